@@ -105,5 +105,12 @@ def exc_kind(ex):
     import opytimizer.utils.exception as e
     for name in ('ArgumentError', 'BuildError', 'SizeError', 'TypeError', 'ValueError'):
         if type(ex) is getattr(e, name):
+            # a typed library error is a member of the library's own family: `except opytimizer.utils.exception.Error` must catch it
+            # (and it must not have become a builtin ValueError/TypeError through a changed base class)
+            base = getattr(e, 'Error', None)
+            if base is not None and not isinstance(ex, base):
+                return 'Untyped:%s-outside-the-library-Error-family' % name
+            if isinstance(ex, (ValueError, TypeError, LookupError, ArithmeticError)):
+                return 'Untyped:%s-is-a-builtin-%s' % (name, [b.__name__ for b in (ValueError, TypeError, LookupError, ArithmeticError) if isinstance(ex, b)][0])
             return name
     return 'Untyped:' + type(ex).__name__
